@@ -33,7 +33,6 @@ h_ptrheap_increasemin(void)
 
 	ptrheap_increasemin(H);
 
-	__CPROVER_assert(HP_ISMIN(H->elems, H->nelems, HP_E(H->elems, 0)), "the root is a least element");
 	VCOVER(use_rc && n == HP_MAXN && H_l_buf[HP_MAXN - 1] == e);
 	VCOVER(!use_rc && n >= 2 && H_l_buf[0] != e);
 	VCOVER(n == 0);
